@@ -270,6 +270,7 @@ fn gen_file(cst: &Cst<'_>, node_ref: NodeRef, items: &mut PrintItems) {
                 space_before_comment(cst, &span, items, true);
                 items.extend(ir_helpers::gen_from_raw_string(txt));
                 items.push_signal(Signal::SpaceIfNotTrailing);
+                line_start = false;
             }
             Node::Token(Token::Whitespace, idx) => {
                 let txt = cst.span_text(idx);
